@@ -26,6 +26,7 @@ type poolScenario struct {
 	hosts    int
 	dialFate []int // per dial index (per host): 0 ok, 1 fail fast, 2 slow ok, 3 slow fail
 	resets   int   // number of server-side resets during the run
+	cerr     int   // transports whose Close() reports an error: 0 none, 1 all, 2 odd ids
 	millis   int
 	seed     uint64
 }
@@ -66,6 +67,9 @@ func runPool(sc poolScenario) (string, string) {
 				return errors.New("memcluster: connection timed out")
 			}
 			return nil
+		}
+		if sel := cerrSel(sc.cerr); sel != nil {
+			closeErrEvery(n, sel)
 		}
 	}
 	cfg := sess.Config(cl, 4, ips...)
@@ -163,6 +167,7 @@ func runPool(sc poolScenario) (string, string) {
 	cdone := make(chan struct{})
 	go func() { s.Close(); close(cdone) }()
 	if !closedWithin(cdone, watchdogFull) {
+		atomic.AddInt64(&failures, 1)
 		return "fatal:Session.Close hangs " + stacks(), "fatal"
 	}
 	// slow dials still in flight finish and must close their connection: polled (the slowest scripted dial takes
@@ -188,9 +193,12 @@ func stacks() string {
 }
 
 // runClose: Session.Close called by `closers` goroutines at once while queries are in flight.
-func runClose(closers int, inflight int, r *vh.Rng) string {
+func runClose(closers int, inflight int, cerr int, r *vh.Rng) string {
 	cl := memcluster.NewCluster(4, "10.0.0.1", "10.0.0.2")
 	for _, n := range cl.Nodes {
+		if sel := cerrSel(cerr); sel != nil {
+			closeErrEvery(n, sel)
+		}
 		n.Handle = func(req *memcluster.Request) {
 			if strings.Contains(req.Stmt, "never") {
 				return
@@ -244,7 +252,10 @@ func runClose(closers int, inflight int, r *vh.Rng) string {
 	returned := 1
 	if !closedWithin(done, watchdogFull) {
 		returned = 0
+		atomic.AddInt64(&failures, 1)
 		os.WriteFile(dumpPath("hang", "sessclose"), []byte(stacks()), 0o644)
+		// Session.Close hangs: the run has failed; what follows is not waited for any more
+		return fmt.Sprintf("sessclose returned=0 panics=%d again=0 queryerr=other open=0", atomic.LoadInt64(&panics))
 	}
 	again := 0
 	adone := make(chan struct{})
@@ -487,6 +498,7 @@ func main() {
 			sc.resets = 0
 			sc.millis = 450
 		}
+		sc.cerr = (i / 3) % 3
 		scen[i] = sc
 	}
 	res := make([][2]string, np)
@@ -498,12 +510,18 @@ func main() {
 		go func(i int) {
 			defer wg.Done()
 			defer func() { <-sem }()
+			if atomic.LoadInt64(&failures) >= 2 {
+				return // the run has failed (it will be reported): scenarios not yet started are skipped
+			}
 			a, b := runPool(scen[i])
 			res[i] = [2]string{a, b}
 		}(i)
 	}
 	wg.Wait()
 	for i := range res {
+		if res[i][0] == "" {
+			continue
+		}
 		if strings.HasPrefix(res[i][0], "fatal") {
 			os.WriteFile(path+"/fatal.txt", []byte(res[i][0]), 0o644)
 			out.Case("sessclose returned=0 panics=0 again=0 queryerr=other open=0", "accept", "fatal", true)
@@ -513,20 +531,22 @@ func main() {
 	}
 	lap("pools")
 	// 3. Session.Close: concurrent closers, queries in flight
-	for i := 0; i < 40*mult; i++ {
-		op := runClose(1+r.Intn(4), r.Intn(8), r)
+	for i := 0; i < 40*mult && atomic.LoadInt64(&failures) < 2; i++ {
+		op := runClose(1+r.Intn(4), r.Intn(8), i%3, r)
 		if strings.HasPrefix(op, "fatal") {
 			fmt.Fprintln(os.Stderr, op)
 			os.Exit(3)
 		}
-		out.Case(op, "accept", "sessclose", true)
+		out.Case(op, "accept", []string{"sessclose", "sessclose/transport-Close-errors", "sessclose/transport-Close-errors-odd"}[i%3], true)
 	}
-	op := closeRace(400 * mult)
-	if strings.HasPrefix(op, "fatal") {
-		fmt.Fprintln(os.Stderr, op)
-		os.Exit(3)
+	if atomic.LoadInt64(&failures) < 2 {
+		op := closeRace(400 * mult)
+		if strings.HasPrefix(op, "fatal") {
+			fmt.Fprintln(os.Stderr, op)
+			os.Exit(3)
+		}
+		out.Case(op, "accept", "sessclose/race", true)
 	}
-	out.Case(op, "accept", "sessclose/race", true)
 	lap("sessclose")
 	// 4. the connect pipeline: conducted schedules (model-predicted) and scripted-fate scenarios (monitors)
 	nA, nB, nC := 200*mult, 48*mult, 80*mult
